@@ -24,7 +24,7 @@ import (
 	"verif/internal/model"
 )
 
-const rule = "cases: (published, offset) over boundaries {0,1,2^31-1,2^31,2^32-1} x {0,1,65535} (all 15 pairs every run) and uniform u32 x u16, carried by LeaseSet2, MetaLeaseSet and EncryptedLeaseSet encodings; Lease end dates (ms) below 2^63 incl. 9223372036854/5 (the UnixNano limit); Lease2 seconds over u32 and constructor times outside [0,2^32-1] (negative, 2^32, year 2262+, sub-second fractions, +-2^k +- delta up to the int64 limits, and second counts whose product with 10^3, 10^6 or 10^9 wraps modulo 2^64 into the 32-bit range); offline expiry u32; LeaseSets of 1..16 leases with arbitrary, repeated and boundary dates in random order; expiry one day before / after the start of the run for seven structure kinds. Oracle: math/big - ExpirationTime().Unix() = published+offset (up to 2^32+65534, no wrap), exact second<->millisecond conversions, NewLease2 rejects out-of-range instead of wrapping, Newest/OldestExpiration are members of the leases and bound all others, IsExpired true at now-86400 s and false at now+86400 s. Non-trivial: published+offset crosses 2^31 or 2^32, a date beyond 2^31 s, or a lease set with >= 2 distinct dates; distinct by field values."
+const rule = "cases: (published, offset) over boundaries {0,1,2^31-1,2^31,2^32-1} x {0,1,65535} (all 15 pairs every run) and uniform u32 x u16, carried by LeaseSet2, MetaLeaseSet and EncryptedLeaseSet encodings; Lease end dates (ms) below 2^63 incl. 9223372036854/5 (the UnixNano limit); Lease2 seconds over u32 and constructor times outside [0,2^32-1] (negative, 2^32, year 2262+, sub-second fractions, +-2^k +- delta up to the int64 limits, and second counts whose product with 10^3, 10^6 or 10^9 wraps modulo 2^64 into the 32-bit range); offline expiry u32; LeaseSets of 1..16 leases with arbitrary, repeated and boundary dates in random order; expiry one day before / after the start of the run for seven structure kinds. Oracle: math/big - ExpirationTime().Unix() = published+offset (up to 2^32+65534, no wrap), exact second<->millisecond conversions (Lease / Date accessors, NewLease, DateFromTime, NewDateFromMillis, NewDateFromUnix over the whole range below 2^63 ms), NewLease2 rejects out-of-range instead of wrapping, Newest/OldestExpiration are members of the leases and bound all others, IsExpired true at now-86400 s and false at now+86400 s. Non-trivial: published+offset crosses 2^31 or 2^32, a date beyond 2^31 s, or a lease set with >= 2 distinct dates; distinct by field values."
 
 var now time.Time
 
@@ -146,6 +146,22 @@ func checkLease(c Case, r *ev.Rec) error {
 		dd, err := data.DateFromTime(l.Time())
 		if err != nil || !bytes.Equal(dd.Bytes(), model.U64(c.Ms)) {
 			return fmt.Errorf("DateFromTime(Lease.Time()) = %x for %d ms", dd.Bytes(), c.Ms)
+		}
+		// the explicit second <-> millisecond conversions of the date type
+		dm, err := data.NewDateFromMillis(int64(c.Ms))
+		if err != nil || dm == nil || !bytes.Equal(dm.Bytes(), model.U64(c.Ms)) {
+			return fmt.Errorf("NewDateFromMillis(%d) = %v (%v): not the exact millisecond date", c.Ms, dm, err)
+		}
+		secs := int64(c.Ms / 1000)
+		ds, err := data.NewDateFromUnix(secs)
+		if err != nil || ds == nil || !bytes.Equal(ds.Bytes(), model.U64(uint64(secs)*1000)) {
+			return fmt.Errorf("NewDateFromUnix(%d) = %v (%v): want %d ms exactly", secs, ds, err, uint64(secs)*1000)
+		}
+		if got := ds.Time().Unix(); got != secs {
+			return fmt.Errorf("NewDateFromUnix(%d).Time().Unix() = %d", secs, got)
+		}
+		if got := dm.Time().UnixMilli(); got != int64(c.Ms) {
+			return fmt.Errorf("NewDateFromMillis(%d).Time().UnixMilli() = %d", c.Ms, got)
 		}
 	}
 	if c.Ms >= 1<<31*1000 {
